@@ -246,6 +246,11 @@ func cmdCheck(args []string) int {
 			}
 		}
 	}
+	// analysis obligations (frame / determinism back end)
+	for _, ob := range p.FrameObligations(*prop) {
+		items = append(items, &solveItem{ob: ob, done: true})
+		funcsUnder = append(funcsUnder, ob.Func)
+	}
 	// contract binding
 	for _, c := range p.Contracts {
 		for k, l := range c.Loops {
@@ -313,6 +318,11 @@ func cmdCheck(args []string) int {
 		recs = append(recs, rec)
 		if *verbose || !good {
 			fmt.Printf("OBLIGATION %s status=%s solver=%s time=%dms  (%s)\n", ob.Name, rec.Status, ob.Solver, ob.TimeMs, ob.Pos)
+			if !good && ob.Solver == "frame-checker" {
+				for _, l := range strings.Split(ob.Output, "\n") {
+					fmt.Println("    " + l)
+				}
+			}
 		}
 		if good {
 			newExpected = append(newExpected, ob.Name)
